@@ -4,6 +4,10 @@ import ColoVerif.Proofs.NetAsmScale
 import ColoVerif.Proofs.NetAsmLsq
 import ColoVerif.Model.NetTopology
 import ColoVerif.Proofs.NetTopology
+import ColoVerif.Proofs.NetAsmModels
+import ColoVerif.Proofs.NetAsmFinalize
+import ColoVerif.Proofs.NetAsmHomog
+import ColoVerif.Proofs.NetTopologyF32
 /-
 C17 — the continuous solver of global placement honours real-valued net weights.
 
@@ -17,9 +21,9 @@ The second half is about `NetTopology.topology`, the model of `NetModel::xTopolo
 (which circuit nets are stored, with which pins and which weight) that the driver executes on the
 circuits of the topology stream and the harness compares with the real `NetModel`'s accessors.
 
-Proved over `Rat` (exact arithmetic).  Not proved: float rounding, convergence of Eigen's
-conjugate gradient, and the `finalize` regularisation entries (`1e-8` on rows no pin touches;
-they are not scaled, their rows are otherwise empty).
+Proved over `Rat` (exact arithmetic).  Not proved: float rounding inside the assembly and
+convergence of Eigen's conjugate gradient.  The int → float conversions of `xTopology/yTopology`
+*are* modelled (binary32 rounding, `Legalize.f32`).
 -/
 namespace ColoVerif.C17
 open ColoVerif.NetAsm ColoVerif.NetTopology
@@ -181,6 +185,201 @@ theorem circuit_star_solution_minimizes (a : Axis) (c : Circuit) (pl : List Rat)
   rw [buildWith_id_rawNets] at this
   exact this
 
+/-! ### the finalized system (what hook H2 observes and Eigen receives) -/
+
+/-- Cells of the stored nets are `-1` or valid (`NetModel::check`); no condition on the weights. -/
+def CellsOk (nbCells : Nat) (raws : List RawNet) : Prop :=
+  ∀ n ∈ buildWith (fun w => w) raws, NetOk nbCells n
+
+/-- **Homogeneity of the finalized system.**  `MatrixCreator::finalize` prepends (newest first) the
+regularisation entries `regEntries` — `(i, i, 1e-8f)` for the unknowns whose non-zero flag is still
+false — to the assembled triplets and touches nothing else.  The flags do not depend on the weights,
+so the finalized system for the weights `k·W` has the *same* regularisation entries, every other
+entry and the right-hand side multiplied by `k`, and the same dimensions and initial guess — for
+all inputs and all five variants. -/
+theorem finalized_assembly_homogeneous (k : Rat) (m : Mode) (nbCells : Nat) (raws : List RawNet)
+    (pl : List Rat) (ε : Rat) (pen : Option Penalty) :
+    (finalize (assemble m nbCells (raws.map (RawNet.scale k)) pl ε (pen.map (Penalty.scale k)))).mat
+        = regEntries (assemble m nbCells raws pl ε pen)
+          ++ (assemble m nbCells raws pl ε pen).mat.map (fun t => (t.1, t.2.1, k * t.2.2))
+      ∧ (finalize (assemble m nbCells raws pl ε pen)).mat
+        = regEntries (assemble m nbCells raws pl ε pen) ++ (assemble m nbCells raws pl ε pen).mat
+      ∧ (finalize (assemble m nbCells (raws.map (RawNet.scale k)) pl ε (pen.map (Penalty.scale k)))).rhs
+        = (finalize (assemble m nbCells raws pl ε pen)).rhs.map (fun v => k * v)
+      ∧ (finalize (assemble m nbCells (raws.map (RawNet.scale k)) pl ε (pen.map (Penalty.scale k)))).initial
+        = (finalize (assemble m nbCells raws pl ε pen)).initial
+      ∧ (finalize (assemble m nbCells (raws.map (RawNet.scale k)) pl ε (pen.map (Penalty.scale k)))).matSize
+        = (finalize (assemble m nbCells raws pl ε pen)).matSize
+      ∧ (finalize (assemble m nbCells (raws.map (RawNet.scale k)) pl ε (pen.map (Penalty.scale k)))).nbCells
+        = (finalize (assemble m nbCells raws pl ε pen)).nbCells := by
+  rw [assembly_homogeneous]
+  refine ⟨?_, finalize_mat _, ?_, ?_, ?_, ?_⟩
+  · rw [finalize_mat, regEntries_scale]; rfl
+  · rw [finalize_rhs, finalize_rhs]; rfl
+  · rw [finalize_initial, finalize_initial]; rfl
+  · rw [finalize_matSize, finalize_matSize]; rfl
+  · rw [finalize_nbCells, finalize_nbCells]; rfl
+
+/-- **The regularisation entries are inert.**  Each of them sits on the diagonal of a row that no
+pin has touched: the row has no assembled entry and a zero right-hand side, so it reads
+`1e-8 · x_i = 0` whatever the weights are (valid cell indices). -/
+theorem regularisation_rows_inert (m : Mode) (nbCells : Nat) (raws : List RawNet) (pl : List Rat) (ε : Rat)
+    (pen : Option Penalty) (h : CellsOk nbCells raws) :
+    ∀ e ∈ regEntries (assemble m nbCells raws pl ε pen),
+      e = (e.1, e.1, tiny) ∧ e.1 < (assemble m nbCells raws pl ε pen).matSize
+        ∧ (∀ t ∈ (assemble m nbCells raws pl ε pen).mat, t.1 ≠ e.1)
+        ∧ (assemble m nbCells raws pl ε pen).rhs.getD e.1 0 = 0 := by
+  have e : Gen.NetWeightType.store = fun w => w := funext store_exact
+  have fin : FinInv (assemble m nbCells raws pl ε pen) := by
+    unfold assemble assembleWith
+    rw [e]
+    exact assembleNets_fin m nbCells _ pl ε pen h
+  intro t ht
+  obtain ⟨a, b, c⟩ := mem_regEntries _ t ht
+  refine ⟨a, b, ?_, fin.zero _ c⟩
+  intro u hu heq
+  have := (fin.rows u hu).2
+  rw [heq, c] at this
+  exact Bool.noConfusion this
+
+/-- **`finalize` is harmless under scaling**: for `k ≠ 0` the *finalized* systems — the objects
+handed to Eigen and observed by hook H2 — assembled from the weights `W` and `k·W` (net weights and
+penalty strengths) have the same solution set. -/
+theorem finalize_scale_invariant (k : Rat) (hk : k ≠ 0) (m : Mode) (nbCells : Nat) (raws : List RawNet)
+    (pl : List Rat) (ε : Rat) (pen : Option Penalty) (h : CellsOk nbCells raws) (x : Nat → Rat) :
+    Solves (finalize (assemble m nbCells (raws.map (RawNet.scale k)) pl ε (pen.map (Penalty.scale k)))) x
+      ↔ Solves (finalize (assemble m nbCells raws pl ε pen)) x := by
+  have e : Gen.NetWeightType.store = fun w => w := funext store_exact
+  have fin : FinInv (assemble m nbCells raws pl ε pen) := by
+    unfold assemble assembleWith
+    rw [e]
+    exact assembleNets_fin m nbCells _ pl ε pen h
+  rw [assembly_homogeneous]
+  exact solves_finalize_scale k hk _ fin x
+
+/-! ### every net model is weighted least squares -/
+
+/-- **All four re-weighted net models (B2B, star, clique, light star), the initial star model, and
+the penalty.**  The system assembled by `solveStar(params)`, `solve(pl, params)` or
+`solveWithPenalty(pl, target, strength, params)` is the normal-equation system of
+`QModel + penQ`: the documented quadratic of the selected net model — a sum over the nets of
+springs whose stiffness is the net's real-valued weight `W` (times the model's constant:
+`2/(nb(nb−1))`, `1/(nb−1)`, `1/nb`) divided by `max ε |distance in pl|`, *frozen* at the placement
+`pl` the model is built around — plus the penalty springs `strength_i / max(|pl_i − target_i|, cutoff)`.
+`Q(x + t) = Q(x) + 2⟨A x − b, t⟩ + ⟨A t, t⟩`, i.e. `A x − b = ½∇Q(x)`: the pull of a net on a cell
+is proportional to its weight, in every model. -/
+theorem net_models_are_least_squares (m : Mode) (nbCells : Nat) (raws : List RawNet) (pl : List Rat)
+    (ε : Rat) (pen : Option Penalty) (h : WellFormed nbCells raws) (hε : 0 ≤ ε) (hp : PenaltyOk pen) :
+    IsHalfGradient (assemble m nbCells raws pl ε pen)
+      (fun x => QModel m pl ε x nbCells (buildWith (fun w => w) raws) + penQ pl pen nbCells x) := by
+  have e : Gen.NetWeightType.store = fun w => w := funext store_exact
+  unfold assemble assembleWith
+  rw [e]
+  exact (assembleNets_inv m nbCells _ pl ε hε pen hp h).grad
+
+/-- … with a positive semidefinite matrix: every exact solution of `A x = b` is a global minimiser
+of that quadratic. -/
+theorem net_model_solution_minimizes (m : Mode) (nbCells : Nat) (raws : List RawNet) (pl : List Rat)
+    (ε : Rat) (pen : Option Penalty) (h : WellFormed nbCells raws) (hε : 0 ≤ ε) (hp : PenaltyOk pen)
+    (x : Nat → Rat) (hx : Solves (assemble m nbCells raws pl ε pen) x) (y : Nat → Rat) :
+    QModel m pl ε x nbCells (buildWith (fun w => w) raws) + penQ pl pen nbCells x
+      ≤ QModel m pl ε y nbCells (buildWith (fun w => w) raws) + penQ pl pen nbCells y := by
+  have e : Gen.NetWeightType.store = fun w => w := funext store_exact
+  have inv := assembleNets_inv m nbCells (buildWith (fun w => w) raws) pl ε hε pen hp h
+  unfold assemble assembleWith at hx
+  rw [e] at hx
+  exact inv_solution_minimizes _ _ inv x hx y
+
+/-- **The quadratic is linear in the weights**: multiplying all net weights and penalty strengths by
+`k` multiplies `QModel + penQ` by `k` (so each net's term, hence its pull, is proportional to its
+own weight). -/
+theorem model_quadratic_homogeneous (k : Rat) (m : Mode) (nbCells : Nat) (raws : List RawNet) (pl : List Rat)
+    (ε : Rat) (pen : Option Penalty) (x : Nat → Rat) :
+    QModel m pl ε x nbCells (buildWith (fun w => w) (raws.map (RawNet.scale k)))
+        + penQ pl (pen.map (Penalty.scale k)) nbCells x
+      = k * (QModel m pl ε x nbCells (buildWith (fun w => w) raws) + penQ pl pen nbCells x) := by
+  rw [buildWith_scale k _ (fun _ => rfl), QModel_scale, penQ_scale]
+  ring
+
+/-- **What each model says about a two-pin net.**  In the star, light-star and clique models, and
+in the B2B model when the two pins are at different positions in `pl`, a two-pin net of weight `W`
+is the single spring `(W / max ε |p0(pl) − p1(pl)|) (p0 − p1)²`.  In the B2B model with
+*coincident* pins the minimum and the maximum pin are the same pin and the other one is tied to it
+twice: the net pulls with twice that stiffness (still proportional to `W`). -/
+theorem two_pin_net_quadratic (pl : List Rat) (ε : Rat) (x : Nat → Rat) (sv : Nat) (w : Rat) (p0 p1 : NetAsm.Pin) :
+    netQ .star pl ε x sv ⟨w, [p0, p1]⟩ = bipTerm pl ε x ⟨w, [p0, p1]⟩
+      ∧ netQ .lightStar pl ε x sv ⟨w, [p0, p1]⟩ = bipTerm pl ε x ⟨w, [p0, p1]⟩
+      ∧ netQ .clique pl ε x sv ⟨w, [p0, p1]⟩ = bipTerm pl ε x ⟨w, [p0, p1]⟩
+      ∧ (pinPos pl p0 ≠ pinPos pl p1 → netQ .b2b pl ε x sv ⟨w, [p0, p1]⟩ = bipTerm pl ε x ⟨w, [p0, p1]⟩)
+      ∧ (pinPos pl p0 = pinPos pl p1 → netQ .b2b pl ε x sv ⟨w, [p0, p1]⟩ = 2 * bipTerm pl ε x ⟨w, [p0, p1]⟩) :=
+  ⟨star_two_pin pl ε x sv w p0 p1, lightStar_two_pin pl ε x sv w p0 p1, clique_two_pin pl ε x w p0 p1,
+   b2b_two_pin_distinct pl ε x w p0 p1, b2b_two_pin_coincident pl ε x w p0 p1⟩
+
+/-! ### … at the circuit level -/
+
+/-- **Two-pin nets at the circuit level.**  When every non-degenerate circuit net is stored with two
+pins, the system that `solve(pl, params)` (star or light-star model) assembles from the `NetModel`
+returned by `xTopology(circuit)` / `yTopology(circuit)` is the normal-equation system of
+`Σ (W / max ε |p0(pl) − p1(pl)|) (p0 − p1)²` over the non-degenerate nets *with the circuit's own
+weights* `W = Circuit::netWeight`, and every exact solution minimises it. -/
+theorem circuit_two_pin_nets_are_least_squares (a : Axis) (c : Circuit) (m : Mode)
+    (hm : m = .star ∨ m = .lightStar) (pl : List Rat) (ε : Rat) (h : CircuitOk c)
+    (h2 : ∀ n ∈ circuitNets a c, n.pins.length ≤ 2) :
+    IsHalfGradient (assembleNets m c.cells.length (topology a c) pl ε none)
+        (fun x => QBip pl ε x (circuitNets a c))
+      ∧ ∀ x, Solves (assembleNets m c.cells.length (topology a c) pl ε none) x →
+          ∀ y, QBip pl ε x (circuitNets a c) ≤ QBip pl ε y (circuitNets a c) := by
+  have tp : TwoPin c.cells.length (rawNets a c) := by
+    unfold TwoPin
+    rw [buildWith_id_rawNets]
+    intro n hn
+    obtain ⟨h1, h3⟩ := circuitNets_wellFormed a c h n hn
+    exact ⟨h1, h3, h2 n hn⟩
+  have := two_pin_nets_are_least_squares m hm c.cells.length (rawNets a c) pl ε tp
+  rw [buildWith_id_rawNets] at this
+  exact this
+
+/-- **Every net model at the circuit level**, with or without penalty: the system assembled from
+`xTopology(circuit)` / `yTopology(circuit)` is the normal-equation system of the model's documented
+quadratic over the non-degenerate circuit nets with the circuit's own weights, and exact solutions
+minimise it. -/
+theorem circuit_net_models_are_least_squares (a : Axis) (c : Circuit) (m : Mode) (pl : List Rat) (ε : Rat)
+    (pen : Option Penalty) (h : CircuitOk c) (hε : 0 ≤ ε) (hp : PenaltyOk pen) :
+    IsHalfGradient (assembleNets m c.cells.length (topology a c) pl ε pen)
+        (fun x => QModel m pl ε x c.cells.length (circuitNets a c) + penQ pl pen c.cells.length x)
+      ∧ ∀ x, Solves (assembleNets m c.cells.length (topology a c) pl ε pen) x →
+          ∀ y, QModel m pl ε x c.cells.length (circuitNets a c) + penQ pl pen c.cells.length x
+            ≤ QModel m pl ε y c.cells.length (circuitNets a c) + penQ pl pen c.cells.length y := by
+  have wf : WellFormed c.cells.length (rawNets a c) := by
+    unfold WellFormed
+    rw [buildWith_id_rawNets]
+    exact circuitNets_wellFormed a c h
+  have g := net_models_are_least_squares m c.cells.length (rawNets a c) pl ε pen wf hε hp
+  have mn := net_model_solution_minimizes m c.cells.length (rawNets a c) pl ε pen wf hε hp
+  rw [buildWith_id_rawNets] at g mn
+  exact ⟨g, mn⟩
+
+/-! ### int → float conversions of `xTopology` / `yTopology` -/
+
+/-- **Below 2^24 the conversions are exact.**  If every integer that `xTopology`/`yTopology` converts
+to `float` for a pin (its offset, the placed size of its cell, twice the offset minus the size — the
+numerator of the offset to the centre —, its position on a fixed cell) is at most 2^24 in magnitude, the stored pins and the clamping bounds are the exact rational values; above,
+they are the binary32 roundings the model computes (and the topology stream checks on coordinates up
+to 2^26). -/
+theorem topology_exact_below_2p24 (a : Axis) (c : Circuit) (p : ColoVerif.Pin)
+    (ho : SmallInt (pinOffset a (c.cell p.cell) p)) (hs : SmallInt (placedSize a (c.cell p.cell)))
+    (hd : SmallInt (2 * pinOffset a (c.cell p.cell) p - placedSize a (c.cell p.cell)))
+    (hp : SmallInt (cellPos a (c.cell p.cell) + pinOffset a (c.cell p.cell) p)) :
+    movablePin a c p = ((p.cell : Int),
+        ((pinOffset a (c.cell p.cell) p : Int) : Rat) - (1 / 2 : Rat) * ((placedSize a (c.cell p.cell) : Int) : Rat))
+      ∧ fixedPos a c p = ((cellPos a (c.cell p.cell) + pinOffset a (c.cell p.cell) p : Int) : Rat) :=
+  ⟨movablePin_exact a c p ho hs hd, fixedPos_exact a c p hp⟩
+
+/-- … and the rounding is real: the pin of a pad at `x = 2^24 + 1` is stored at `2^24`. -/
+theorem topology_rounds_above_2p24 :
+    fixedPos .x ⟨[⟨0, 0, 16777217, 0, .N, true, false, .ANY⟩], [], []⟩ ⟨0, 0, 0⟩ = 16777216 := by
+  decide +kernel
+
 /-! ### non-vacuity -/
 
 /-- A three-pin net of weight ¾ plus a two-pin net of weight ½ on two cells. -/
@@ -262,5 +461,46 @@ example : keptIdx sampleCircuit = [0, 3, 4]
        ⟨5 / 2, [((1 : Int), (0 : Rat)), ((-1 : Int), (7 : Rat))]⟩,
        ⟨1 / 8, [((1 : Int), (-1 : Rat)), ((0 : Int), (2 : Rat))]⟩] := by
   decide +kernel
+
+/-- `CellsOk` follows from `WellFormed` (so the sample above satisfies it) … -/
+example (nb : Nat) (raws : List RawNet) (h : WellFormed nb raws) : CellsOk nb raws := fun n hn => (h n hn).1
+
+/-- … and `finalize` really adds something the scaling does not touch: with three cells of which
+the last is on no net, the finalized sample has the extra entry `(2, 2, 1e-8f)`, the same for the
+weights `W` and `7·W`. -/
+example : regEntries (assemble .b2b 3 sampleRaws [0, 0, 0] 1 none) = [(2, 2, tiny)]
+    ∧ regEntries (assemble .b2b 3 (sampleRaws.map (RawNet.scale 7)) [0, 0, 0] 1 none) = [(2, 2, tiny)] := by
+  decide +kernel
+
+/-- `PenaltyOk` is satisfiable by a non-trivial penalty (fractional strengths, one of them zero). -/
+example : PenaltyOk (some ⟨[3, -1], [1 / 4, 0], 2⟩) := by
+  intro p hp i
+  cases hp
+  match i with
+  | 0 => decide +kernel
+  | 1 => decide +kernel
+  | (j + 2) => simp
+
+/-- The B2B double connection is in the assembled matrix the driver prints: a two-pin net of weight
+`3/4` whose pins coincide in `pl` (both at 5) assembles *two* blocks of stiffness `3/4 / ε`, a net
+with distinct pins one block of stiffness `3/4 / |distance|`. -/
+example : (assemble .b2b 2 [⟨3 / 4, [((0 : Int), (0 : Rat)), ((1 : Int), (0 : Rat))], none⟩] [5, 5] 1 none).triplets
+      = [(1, 0, -(3/4)), (0, 1, -(3/4)), (1, 1, 3/4), (0, 0, 3/4),
+         (1, 0, -(3/4)), (0, 1, -(3/4)), (1, 1, 3/4), (0, 0, 3/4)]
+    ∧ (assemble .b2b 2 [⟨3 / 4, [((0 : Int), (0 : Rat)), ((1 : Int), (0 : Rat))], none⟩] [5, 8] 1 none).triplets
+      = [(1, 0, -(1/4)), (0, 1, -(1/4)), (1, 1, 1/4), (0, 0, 1/4)] := by
+  decide +kernel
+
+/-- The two-pin hypothesis of the circuit-level theorem holds on the sample circuit (three kept
+nets, all stored with two pins), on both axes. -/
+example : (∀ n ∈ circuitNets .x sampleCircuit, n.pins.length ≤ 2)
+    ∧ (∀ n ∈ circuitNets .y sampleCircuit, n.pins.length ≤ 2) := by
+  decide +kernel
+
+/-- `SmallInt` hypotheses of `topology_exact_below_2p24`: any pin of the sample circuit. -/
+example : SmallInt (pinOffset .x (sampleCircuit.cell 1) ⟨1, 1, 1⟩) ∧ SmallInt (placedSize .x (sampleCircuit.cell 1))
+    ∧ SmallInt (2 * pinOffset .x (sampleCircuit.cell 1) ⟨1, 1, 1⟩ - placedSize .x (sampleCircuit.cell 1)) := by
+  unfold SmallInt
+  decide
 
 end ColoVerif.C17
